@@ -31,6 +31,10 @@ def menu():
     m["p_in_rp"] = {"Type": "Pass", "InputPath": "$.a", "ResultPath": "$.r"}
     m["p_in_rpnull"] = {"Type": "Pass", "InputPath": "$.a", "ResultPath": None}
     m["t_in_rp"] = {"Type": "Task", "Resource": fa("f"), "InputPath": "$.a", "ResultPath": "$.r"}
+    # the result is (part of) the input and is placed *inside* the input object it refers to: placing works on copies
+    m["p_rp_nested_self"] = {"Type": "Pass", "ResultPath": "$.a.whole"}
+    m["p_rp_nested_part"] = {"Type": "Pass", "Parameters": {"m.$": "$.a"}, "ResultPath": "$.a.t"}
+    m["t_rp_nested"] = {"Type": "Task", "Resource": fa("f"), "ResultPath": "$.a.r"}
     m["p_emptyparams"] = {"Type": "Pass", "Parameters": {}, "ResultPath": "$.p"}
     m["t_emptysel"] = {"Type": "Task", "Resource": fa("f"), "Parameters": {}, "ResultSelector": {}, "ResultPath": "$.r"}
     m["t_plain"] = {"Type": "Task", "Resource": fa("f")}
